@@ -275,7 +275,12 @@ func c14body(ri *simcheck.RunInfo, s C14Scenario) {
 			seenSQL.Store(key, first)
 		}
 		for k := 1; k < len(tickSQL); k++ {
-			if i, x, y := diff(tickSQL[0], tickSQL[k]); i >= 0 {
+			if len(tickSQL[k]) == 2 && len(tickSQL[0]) == 2 && tickSQL[0][1] != "" && !(len(tickSQL[k][1]) > len(tickSQL[0][1]) || tickSQL[k][1] > tickSQL[0][1]) {
+				add("plan-not-reexecutable", "re-executing a prepared plan keeps the first execution's time bounds: "+classOfQuery(s.Subject.Query),
+					fmt.Sprintf("live tail of %q: the upper time bound of tick %d (%s) is not later than tick 1's (%s)", s.Subject.Query, k+1, tickSQL[k][1], tickSQL[0][1]))
+				break
+			}
+			if i, x, y := diff(tickSQL[0][:1], tickSQL[k][:1]); i >= 0 {
 				add("plan-not-reexecutable", "re-executing a prepared plan changes the statement: "+classOfQuery(s.Subject.Query),
 					fmt.Sprintf("live tail of %q: statement #%d of tick %d differs from tick 1 beyond the time bounds: %s", s.Subject.Query, i, k+1, short(x, y)))
 				break
@@ -314,6 +319,19 @@ func c14body(ri *simcheck.RunInfo, s C14Scenario) {
 	ri.SimNanos = int64(time.Since(t0))
 	ri.NonTrivial = len(first) > 0 && (len(s.History) > 0 || len(s.Parallel) > 0 || len(tickSQL) > 1)
 	ri.Sample = map[string]any{"subject": s.Subject.Kind + " " + s.Subject.Query, "history": len(s.History), "parallel": len(s.Parallel), "tail_ticks": len(tickSQL), "statements": len(first), "first_statement": firstOr(first)}
+}
+
+var reTs19 = regexp.MustCompile(`\b[0-9]{18,19}\b`)
+
+// maxTime returns the largest nanosecond literal of a statement (its upper time bound).
+func maxTime(q string) string {
+	m := ""
+	for _, x := range reTs19.FindAllString(q, -1) {
+		if len(x) > len(m) || (len(x) == len(m) && x > m) {
+			m = x
+		}
+	}
+	return m
 }
 
 func firstOr(a []string) string {
@@ -389,7 +407,7 @@ loop:
 	var ticks [][]string
 	for _, stt := range st.db.Since(from) {
 		if stt.Class == "data" {
-			ticks = append(ticks, []string{canon(stt.SQL)})
+			ticks = append(ticks, []string{canon(stt.SQL), maxTime(stt.SQL)})
 		}
 	}
 	return ticks
